@@ -369,3 +369,15 @@ P("C01-p06", "header fields written by an extracted helper method", EMG,
 P("C06-p03", "header fields written by an extracted helper method", EMG,
   "        # nSignals\n        i32.bwrite(file, len(self._signals))\n\n        # frequency\n        i32.bwrite(file, self.frequency)\n", "        self._write_counts(file)\n",
   EMG, "    def __getitem__(self, key) -> EMGTrack:", "    def _write_counts(self, file) -> None:\n        i32.bwrite(file, len(self._signals))\n        i32.bwrite(file, self.frequency)\n\n    def __getitem__(self, key) -> EMGTrack:")
+
+# ------------------------------------------------------------------------------------------------ session 3 (rules after seeded round 9)
+P("C18-p30", "explicit bound on the integer key, taken from the number of tracks", D3, "        if isinstance(key, int):\n            return self._tracks[key]\n        elif isinstance(key, str):\n            try:\n                return next(track for track in self._tracks if track.label == key)",
+  "        if isinstance(key, int):\n            if not -len(self._tracks) <= key < len(self._tracks):\n                raise IndexError(\"track index out of range\")\n            return self._tracks[key]\n        elif isinstance(key, str):\n            try:\n                return next(track for track in self._tracks if track.label == key)")
+B("C18-b30", "integer key bounded by the number of frames", D3, "        if isinstance(key, int):\n            return self._tracks[key]\n        elif isinstance(key, str):\n            try:\n                return next(track for track in self._tracks if track.label == key)",
+  "        if isinstance(key, int):\n            if not -self.nFrames <= key < self.nFrames:\n                raise IndexError(\"track index out of range\")\n            return self._tracks[key]\n        elif isinstance(key, str):\n            try:\n                return next(track for track in self._tracks if track.label == key)", expect="getitem-contract")
+P("C20-p30", "mutable default copied before it is used as a scratch list", FPC, "    def add_platforms(self, plats, channels=None):", "    def add_platforms(self, plats, channels=[]):",
+  FPC, "        if channels:\n            for plat, channel in zip(plats, channels):", "        channels = list(channels)\n        channels.reverse()\n        channels.reverse()\n        if channels:\n            for plat, channel in zip(plats, channels):")
+B("C20-b30", "mutable default used as a scratch list in place", FPC, "    def add_platforms(self, plats, channels=None):", "    def add_platforms(self, plats, channels=[]):",
+  FPC, "        if channels:\n            for plat, channel in zip(plats, channels):", "        channels.reverse()\n        channels.reverse()\n        if channels:\n            for plat, channel in zip(plats, channels):", expect="no-shared-default")
+B("C02-b30", "reserved word of the optical setup skipped by an absolute seek", OPT, "        nChannels = i32.bread(stream)\n        i32.skip(stream)", "        nChannels = i32.bread(stream)\n        stream.seek(8)", expect="codec-call-shape")
+B("C03-b30", "parsed table sorted by offset", TDF, "        self.entries = [TdfEntry._build(self.handler) for _ in range(self.nEntries)]", "        self.entries = [TdfEntry._build(self.handler) for _ in range(self.nEntries)]\n        self.entries.sort(key=lambda e: e.offset)", expect="parse-on-enter")
